@@ -3,6 +3,7 @@ import OFProps.C01Net
 import OFProps.C04NetRecv
 import OFProps.C04NetSend
 import OFProps.C06Live
+import OFProps.C03Net
 set_option linter.unusedSimpArgs false
 /-!
 # The lock-step invariant of a chain of filters (helper for `OFProps/C04Net.lean`)
@@ -21,9 +22,6 @@ open OF.Pair (PubIdle Idle)
 
 /-! ## the topology -/
 
-/-- `0 → 1 → … → L-1` -/
-def c4_chainTopo (L : Nat) : Topo := { ups := (List.range L).map fun i => if i = 0 then [] else [i - 1] }
-
 /-- what the proofs use of a chain topology -/
 structure IsChain (tp : Topo) (L : Nat) : Prop where
   n : tp.n = L
@@ -31,11 +29,11 @@ structure IsChain (tp : Topo) (L : Nat) : Prop where
   ups : ∀ i, i + 1 < L → tp.upsOf (i + 1) = [i]
   out : ∀ i, tp.hasOut i = decide (i + 1 < L)
 
-theorem chainTopo_upsOf (L i : Nat) (h : i < L) : (c4_chainTopo L).upsOf i = if i = 0 then [] else [i - 1] := by
-  simp [Topo.upsOf, c4_chainTopo, h]
+theorem chainTopo_upsOf (L i : Nat) (h : i < L) : (chainTopo L).upsOf i = if i = 0 then [] else [i - 1] := by
+  simp [Topo.upsOf, chainTopo, h]
 
-theorem isChain_chainTopo (L : Nat) : IsChain (c4_chainTopo L) L := by
-  refine ⟨by simp [Topo.n, c4_chainTopo], ?_, ?_, ?_⟩
+theorem isChain_chainTopo (L : Nat) : IsChain (chainTopo L) L := by
+  refine ⟨by simp [Topo.n, chainTopo], ?_, ?_, ?_⟩
   · by_cases h : 0 < L
     · rw [chainTopo_upsOf L 0 h]; rfl
     · have : L = 0 := by omega
@@ -43,7 +41,7 @@ theorem isChain_chainTopo (L : Nat) : IsChain (c4_chainTopo L) L := by
   · intro i hi
     rw [chainTopo_upsOf L (i + 1) hi]; simp
   · intro i
-    unfold Topo.hasOut c4_chainTopo
+    unfold Topo.hasOut chainTopo
     simp only [List.any_map, Function.comp_def]
     by_cases h : i + 1 < L
     · simp only [h, decide_true, List.any_eq_true, List.mem_range]
@@ -59,14 +57,10 @@ theorem isChain_chainTopo (L : Nat) : IsChain (c4_chainTopo L) L := by
 
 /-! ## schedules without restarts -/
 
-def c4_isRestart : Ev → Bool
-  | .restart _ _ => true
-  | _ => false
-
 /-- states reachable by any schedule without restarts -/
 inductive ReachNR (tp : Topo) (proc : Proc) : St → Prop
   | init : ReachNR tp proc (init tp)
-  | step {st : St} (e : Ev) : c4_isRestart e = false → ReachNR tp proc st → ReachNR tp proc (step tp proc st e).1
+  | step {st : St} (e : Ev) : isRestart e = false → ReachNR tp proc st → ReachNR tp proc (step tp proc st e).1
 
 theorem reachNR_reachable (tp : Topo) (proc : Proc) (st : St) (h : ReachNR tp proc st) : Reachable tp proc st := by
   induction h with
@@ -74,11 +68,6 @@ theorem reachNR_reachable (tp : Topo) (proc : Proc) (st : St) (h : ReachNR tp pr
   | step e _ _ ih => exact .step e ih
 
 /-! ## one event as a pointwise change of the node list -/
-
-theorem c4_pushReqs_nil (p : Send.St) : pushReqs p [] = p := by
-  unfold pushReqs
-  have : (p.queues.map fun q => q ++ []) = p.queues := by simp
-  rw [this]
 
 /-- node `x` after an enabled `nodeRecv i` of a node with a receiver -/
 def recvF (tp : Topo) (proc : Proc) (st : St) (i : Nat) (nd : Node) (x : Nat) (a : Node) : Node :=
@@ -218,12 +207,7 @@ theorem pushWires_other (c : Recv.St) (ups : List Nat) (p : Nat) (ws : List Recv
     | some s => simp [h j]
   rw [this]
 
-theorem c4_pushWires_single (c : Recv.St) (s : Recv.Src) (p : Nat) (ws : List Recv.Wire) (h : c.srcs = [s]) :
-    pushWires c [p] p ws = { c with srcs := [{ s with queue := s.queue ++ ws }] } := by
-  unfold pushWires
-  rw [h]; simp
-
-theorem c4_reqOf_other (i g u x : Nat) (hx : x ≠ u) (outs : List Recv.Out) : outs.filterMap (reqOf i g [u] x) = [] := by
+theorem reqs_other (i g u x : Nat) (hx : x ≠ u) (outs : List Recv.Out) : outs.filterMap (reqOf i g [u] x) = [] := by
   rw [List.filterMap_eq_nil_iff]
   intro o _
   cases o with
@@ -330,7 +314,7 @@ theorem recv_main (L : Nat) (proc : Proc) (hf : Fwd L proc) (tbl : List Entry) (
 
 theorem payloadOf_eq (base : Nat) (res : Loop.Sendable Nat) : payloadOf base res = .deferred ((dictOf res).map (relabel base)) := rfl
 
-theorem c4_relabel_names (base : Nat) (res : Loop.Sendable Nat) (hnames : ∀ d, dictOf res = some d → ∀ x ∈ d, x.1 ≠ "") :
+theorem relabel_names_ne (base : Nat) (res : Loop.Sendable Nat) (hnames : ∀ d, dictOf res = some d → ∀ x ∈ d, x.1 ≠ "") :
     ∀ ts, (dictOf res).map (relabel base) = some ts → ∀ x ∈ ts, x.1 ≠ "" := by
   intro ts hts x hx
   cases hd : dictOf res with
@@ -361,9 +345,9 @@ theorem send_main (L base i : Nat) (nd b : Node) (p : Pending) (t : Int) (hn : N
   have hge : b.con.prevId + 1 ≤ nd.pub.minSendId := by
     rcases hcase with ⟨_, h⟩ | ⟨_, h, _⟩ <;> omega
   have hlow : ∀ r ∈ qa, ReqLow nd.pub.minSendId r := fun r hr => ⟨(hreq r hr).1, by have := (hreq r hr).2; omega⟩
-  have hl := send0_lock i nd.pub qa ((dictOf p.res).map (relabel base)) t hqa hlow (c4_relabel_names base p.res hnames)
+  have hl := send0_lock i nd.pub qa ((dictOf p.res).map (relabel base)) t hqa hlow (relabel_names_ne base p.res hnames)
   generalize Send.send0 nd.pub none (Send.Payload.deferred ((dictOf p.res).map (relabel base))) false [0] t = r at hl ⊢
-  have hpw := c4_pushWires_single b.con s i (r.2.filterMap (wireOf i)) hsrcs
+  have hpw := pushWires_single b.con s i (r.2.filterMap (wireOf i)) hsrcs
   rw [hpw]
   rcases hl.out with ⟨ts, hres, hmin, hblk, hret⟩ | ⟨hmin, hws, hret⟩
   · -- published
@@ -449,7 +433,7 @@ theorem recvF_self (tp : Topo) (proc : Proc) (st : St) (u : Nat) (nd : Node) (a 
     recvF tp proc st (u + 1) nd (u + 1) a =
       afterRecv proc st.tbl (u + 1) nd (Recv.call0 nd.con nd.recvState (List.range nd.con.srcs.length)) := by
   simp only [recvF, ↓reduceIte, hu]
-  rw [c4_reqOf_other (u + 1) nd.gen u (u + 1) (by omega), c4_pushReqs_nil]
+  rw [reqs_other (u + 1) nd.gen u (u + 1) (by omega), pushReqs_nil]
 
 theorem chainLock_stepRecv (L : Nat) (tp : Topo) (hc : IsChain tp L) (proc : Proc) (hf : Fwd L proc) (st : St) (i : Nat)
     (h : ChainLock L st) : ChainLock L (stepRecv tp proc st i).1 := by
@@ -534,7 +518,7 @@ theorem chainLock_stepRecv (L : Nat) (tp : Topo) (hc : IsChain tp L) (proc : Pro
               rw [hi] at hx; cases hx
               rw [recvF_self tp proc st u nd nd hups]
               exact edgeLock_congr nd b _ _ (afterRecv_pub ..) rfl he
-            · rw [recvF_ne tp proc st (u + 1) nd x a hxi, hups, c4_reqOf_other (u + 1) nd.gen u x hxu, c4_pushReqs_nil]
+            · rw [recvF_ne tp proc st (u + 1) nd x a hxi, hups, reqs_other (u + 1) nd.gen u x hxu, pushReqs_nil]
               exact edgeLock_congr a b _ _ rfl rfl he
 
 theorem afterSend_con (nd : Node) (p : Pending) (r : Send.St × List Send.Out) : (afterSend nd p r).con = nd.con := by
